@@ -41,6 +41,8 @@ def main() -> int:
     ctx = fw.Ctx(a.prop, a.tier, seed)
     try:
         if a.replay:
+            if not DRIVER.exists():
+                fw.lake(["build", "driver"])
             return props.replay(ctx, spec, json.loads(Path(a.replay).read_text()))
         lock = fw._lock()
         try:
